@@ -1064,32 +1064,43 @@ class BooleanExpression(Expression):
         self.expression = expression
 
     def __str__(self) -> str:
-        def _str(expression: Expression, parent_precedence: int) -> str:
+        def _str(expression: Expression, parent_precedence: int, side: str) -> str:
+            if isinstance(expression, LogicalNotExpression):
+                operand_str = _str(expression.expression, PRECEDENCE_PREFIX, "")
+                expr = f"not {operand_str}"
+                # `not` takes everything to its right as its operand, so it must
+                # be grouped when it is an operand of an infix operator.
+                if side:
+                    return f"({expr})"
+                return expr
+
             if isinstance(expression, LogicalAndExpression):
                 precedence = PRECEDENCE_LOGICAL_AND
                 op = "and"
-                left = _str(expression.left, precedence)
-                right = _str(expression.right, precedence)
+                associative = True
             elif isinstance(expression, LogicalOrExpression):
                 precedence = PRECEDENCE_LOGICAL_OR
                 op = "or"
-                left = _str(expression.left, precedence)
-                right = _str(expression.right, precedence)
-            elif isinstance(expression, LogicalNotExpression):
-                operand_str = _str(expression.expression, PRECEDENCE_PREFIX)
-                expr = f"not {operand_str}"
-                if parent_precedence > PRECEDENCE_PREFIX:
-                    return f"({expr})"
-                return expr
+                associative = True
+            elif type(expression) in _INFIX_OPERATORS:
+                op, precedence = _INFIX_OPERATORS[type(expression)]
+                associative = False
             else:
                 return str(expression)
 
+            assert hasattr(expression, "left")
+            assert hasattr(expression, "right")
+            left = _str(expression.left, precedence, "left")
+            right = _str(expression.right, precedence, "right")
             expr = f"{left} {op} {right}"
-            if precedence < parent_precedence:
+            if precedence < parent_precedence or (
+                # Infix operators are right associative.
+                precedence == parent_precedence and side == "left" and not associative
+            ):
                 return f"({expr})"
             return expr
 
-        return _str(self.expression, 0)
+        return _str(self.expression, 0, "")
 
     def evaluate(self, context: RenderContext) -> object:
         return is_truthy(self.expression.evaluate(context))
@@ -1579,6 +1590,18 @@ class InExpression(Expression):
 
     def children(self) -> list[Expression]:
         return [self.left, self.right]
+
+
+_INFIX_OPERATORS: dict[type[Expression], tuple[str, int]] = {
+    EqExpression: ("==", PRECEDENCE_RELATIONAL),
+    NeExpression: ("!=", PRECEDENCE_RELATIONAL),
+    LeExpression: ("<=", PRECEDENCE_RELATIONAL),
+    GeExpression: (">=", PRECEDENCE_RELATIONAL),
+    LtExpression: ("<", PRECEDENCE_RELATIONAL),
+    GtExpression: (">", PRECEDENCE_RELATIONAL),
+    ContainsExpression: ("contains", PRECEDENCE_MEMBERSHIP),
+    InExpression: ("in", PRECEDENCE_MEMBERSHIP),
+}
 
 
 class LoopExpression(Expression):
